@@ -57,6 +57,8 @@ def generate(seed, tier="quick", mode=None, **kw):
                 lines.append(G.expand(r, r.choice(G.LINES_AS), ctx))
         if r.random() < 0.2 and lines:
             lines[-1]["eol"] = ""
+        if o["ip"] and r.random() < 0.04:
+            lines.insert(r.randint(0, max(0, len(lines) - 1)), GC.boundary_line(r, ctx))
         files.append({"path": p, "lines": lines})
     plan = {"family": NAME, "seed": seed, "mode": mode, "files": files, "dirs": dirs, "opts": o,
             "knobs": [GC.gen_knobs(r) for _ in range(4)],
